@@ -609,8 +609,10 @@ class Interp:
             self.stats["blocks"] += 1
             stmts = fn.blocks[bb]
             try:
-                for s in stmts[:-1]:
+                for si, s in enumerate(stmts[:-1]):
+                    self._cur_loc = (fn, bb, si, 0)
                     self.stmt(fn, p, s)
+                self._cur_loc = (fn, bb, len(stmts) - 1, 0)
                 succs = self.term(fn, p, stmts[-1])
             except Panic as e:
                 p.outcome = ("panic", str(e))
@@ -852,10 +854,51 @@ class Interp:
             m = re.search(r"::promoted\[(\d+)\]$", s)
             if m:
                 return self.promoted_const(p, int(m.group(1)))
+            m = re.match(r"const ZeroSized: (\{closure@[^}]*\})$", s)
+            if m:
+                return Tup([], self.closure_name(p, m.group(1)))
             return self.constant(s[6:])
         if re.match(r"^[\w:<>', ]+$", s) and ("::" in s or re.match(r"^[A-Za-z]\w*$", s)):
-            return Opaque("fn-item:" + s)          # function / constructor item passed as a value (e.g. to map_err)
+            return Opaque("fn-item:" + s)
+        sg = strip_generics(s)
+        if re.match(r"^[\w:]+$", sg) and "::" in sg and not sg.startswith("_"):
+            return Opaque("fn-item:" + sg)          # function / constructor item passed as a value (e.g. to map_err)
         raise Unsupported("operand " + s)
+
+    CLOSURE_SITE = re.compile(r"(?:= |const ZeroSized: )(\{closure@[^}]*\})")
+
+    def closure_name(self, p, tag):
+        """closure values carry the MIR body they denote: `{closure@SPAN}=>HEADER`.  rustc prints closure types by span only, and all
+        closures of one derive expansion share a span; the body is identified as the k-th `{closure#k}` of the enclosing function,
+        k = the ordinal of this creation site among the function's creation sites in textual order (= source order)."""
+        loc = getattr(self, "_cur_loc", None)
+        cands = []
+        for mf in [self.mir] + self.mir.others:
+            cands += [(mf, h) for _, h in mf.headers if tag in h and re.search(r"\{closure#\d+\}\(", h)]
+        if len(cands) <= 1 or loc is None:
+            return tag
+        fn, bb, si, _ = loc
+        # the frame being executed may be a callee of the function recorded in _cur_loc's fn only if they coincide
+        parent = p.fn_stack[-1] if getattr(p, "fn_stack", None) else fn
+        if parent is not fn:
+            return tag
+        prefix = parent.name + "::{closure#"
+        mine = [(mf, h) for mf, h in cands if h.startswith(prefix) and re.match(r"\d+\}\(", h[len(prefix):])]
+        sites = []
+        for b in sorted(parent.blocks):
+            for i, st in enumerate(parent.blocks[b]):
+                for mm in self.CLOSURE_SITE.finditer(st):
+                    sites.append((b, i, mm.group(1)))
+        if len(mine) != len(sites):
+            return tag
+        here = [k for k, (b, i, t) in enumerate(sites) if b == bb and i == si and t == tag]
+        if len(here) != 1:
+            return tag
+        k = here[0]
+        hit = [(mf, h) for mf, h in mine if h[len(prefix):].startswith(f"{k}}}(")]
+        if len(hit) != 1:
+            return tag
+        return tag + "=>" + hit[0][1]
 
     def promoted_const(self, p, idx):
         fn = p.fn_stack[-1]
@@ -1068,10 +1111,11 @@ class Interp:
         m = re.match(r"(\{closure@[^}]*\}) \{ (.*) \}$", s)
         if m:
             fields = split_top(m.group(2))
-            return Tup([self.operand(p, f.split(": ", 1)[1]) for f in fields], m.group(1))
+            nm = self.closure_name(p, m.group(1))
+            return Tup([self.operand(p, f.split(": ", 1)[1]) for f in fields], nm)
         m = re.match(r"(\{closure@[^}]*\})$", s)
         if m:
-            return Tup([], m.group(1))
+            return Tup([], self.closure_name(p, m.group(1)))
         ev = self.enum_aggregate(p, s, dest_ty)
         if ev is not None:
             return ev
@@ -1267,7 +1311,7 @@ class Interp:
                     self.write_place(q, dest, rv)
                     out.append((q, nb))
             return out
-        m = re.match(r"(.+?) = (.+)\((.*)\) -> unwind.*$", s)
+        m = re.match(r"(.+?) = (.+)\((.*)\) -> (?:unwind.*|bb\d+)$", s)
         if m:
             # diverging call (panic helpers)
             p.outcome = ("panic", "diverging call " + m.group(2))
